@@ -116,8 +116,26 @@ def rule_ns_bytes(P):
                 why = (f"`{pn}` names chain states from the counter `{local_counter[0]}` that is initialised inside to_bytes: every "
                        f"converted automaton produces `_bytes0`, `_bytes1`, …, and their grammars are merged by name")
             else:
-                rets = [n for n in walk_live(g.node) if isinstance(n, ast.Return)]
-                raise AnalysisError(f"{g.qual}: fresh-state scheme `{norm(rets[0].value) if rets else ''}` not recognised")
+                # names built from the producer's arguments: injective only if they embed the whole arc identity
+                # (source, label, target) and the position in the chain
+                rets = [n for n in walk_live(g.node) if isinstance(n, ast.Return) and n.value is not None]
+                used = {x.id for n in rets for x in ast.walk(n.value) if isinstance(x, ast.Name)} & set(g.params)
+                calls = [n for n in walk_live(f.node) if isinstance(n, ast.Call) and W.call_name(n) == pn]
+                loop = next((n for n in walk_live(f.node) if isinstance(n, ast.For) and norm(n.iter) == "self.arcs()" and isinstance(n.target, ast.Tuple)), None)
+                if not rets or not calls or loop is None or len(loop.target.elts) != 4:
+                    raise AnalysisError(f"{g.qual}: fresh-state scheme not recognised")
+                i_, a_, j_, w_ = (norm(e) for e in loop.target.elts)
+                passed = set()
+                for c in calls:
+                    for p_, arg in zip(g.params, c.args):
+                        if p_ in used:
+                            passed.update(x.id for x in ast.walk(arg) if isinstance(x, ast.Name))
+                missing = [nm for nm in (i_, a_, j_) if nm not in passed]
+                if missing:
+                    why = (f"`{pn}` derives chain-state names from {sorted(passed)} only: without {missing} two arcs that share the rest "
+                           f"(parallel arcs to different targets, or arcs of another converted automaton merged by name) get the same chain")
+                else:
+                    ok = True
         else:
             raise AnalysisError(f"to_bytes: state producer `{pn}` not resolved")
         r.add(g or f, (g or f).node, ok, why, slots=dict(producer=pn), construct=f"to_bytes: chain states from {pn}()",
@@ -364,8 +382,10 @@ def rule_enc_utf8(P):
                 if e.id in src:
                     return True
                 for a in ancestors(e):
-                    if isinstance(a, ast.For) and W.is_name(a.target, e.id):
-                        it = a.iter
+                    if isinstance(a, ast.For) and (W.is_name(a.target, e.id) or (isinstance(a.target, ast.Tuple) and isinstance(a.iter, ast.Call)
+                                                                                       and W.call_name(a.iter) == "enumerate" and len(a.target.elts) == 2
+                                                                                       and W.is_name(a.target.elts[1], e.id))):
+                        it = a.iter.args[0] if isinstance(a.target, ast.Tuple) else a.iter
                         if isinstance(it, ast.Name) and it.id not in src:
                             v = W.single_def(f.node, it.id)
                             it = v if v is not None else it
